@@ -99,6 +99,14 @@ def handmade():
     tb7 = e2e.arg(0) + [("PUSH", 5), "EQ", ("PUSHL", "bad"), "JUMPI", "STOP", ("LABEL", "bad")] + e2e.panic(1)
     out.append(("annot", e2e.Spec("Annot", fns=[("check_a()", ["STOP"]), ("check_b(uint256)", tb7), ("check_c(uint256)", list(tb7))],
                                   devdoc={"check_a()": "--panic-error-codes 0x11", "check_c(uint256)": "--loop 5"}), ()))
+    # (8) block fields set by cheatcodes belong to the transaction that set them: setUp warps to 1000, check_a warps on,
+    # check_b fails only at timestamp 1000 (i.e. from the post-setUp state)
+    warp = lambda v: e2e.call_cheat("warp(uint256)", [[("PUSH", v)]]) + ["POP"]  # noqa: E731
+    tb8 = ["TIMESTAMP", ("PUSH", 1000), "EQ"] + e2e.arg(0) + [("PUSH", 7), "EQ", "AND", ("PUSHL", "bad"), "JUMPI", "STOP", ("LABEL", "bad")] + e2e.panic(1)
+    roll = e2e.call_cheat("roll(uint256)", [[("PUSH", 55)]]) + ["POP"]
+    tc8 = ["NUMBER", ("PUSH", 55), "EQ", ("PUSHL", "bad"), "JUMPI", "STOP", ("LABEL", "bad")] + e2e.panic(1)
+    out.append(("blockenv", e2e.Spec("BlockEnv", fns=[("setUp()", warp(1000)), ("check_a()", warp(2000) + roll + ["STOP"]), ("check_b(uint256)", tb8),
+                                                      ("check_c()", tc8)]), ()))
     return out
 
 
@@ -488,7 +496,7 @@ def path_discipline(run):
 def main(run: common.Run):
     tier = run.tier
     n = 2 if tier == "quick" else 40
-    run.bounds = {"handmade_contracts": 7, "generated_contracts": n, "tests_per_contract": "2..4", "orders": "all permutations (<= 3 tests) / every 4th",
+    run.bounds = {"handmade_contracts": 8, "generated_contracts": n, "tests_per_contract": "2..4", "orders": "all permutations (<= 3 tests) / every 4th",
                   "uid_stubs": ["const", "counter"], "solver_cap_s": 20 if tier == "quick" else 60}
     run.functions_encoded = ["halmos.__main__.run_contract / run_tests / run_test / run_message", "halmos.sevm.Path.extend_path / branch",
                              "halmos.sevm.KeccakRegistry.copy", "halmos.sevm.Exec (setup_ex reuse)", "halmos.utils.uid", "halmos.mapper.BuildOut",
